@@ -7,11 +7,11 @@
    along the operated axis, slab type arbitrary, hence over every rank.  Each implication has an evaluated
    instance in coq/Torch/Examples.v.  What is NOT covered: numeric kernels (everything that is not data
    movement, integer arithmetic or shape bookkeeping), multi-axis roll/flip as one statement (they are the
-   composition of the single-axis operators proved here), stack, div.Tensor_mode on integers (computed through
-   float32 by the code), the end-to-end torch.onnx.export claim; those are observed by the direct oracle only. *)
+   composition of the single-axis operators proved here), the end-to-end torch.onnx.export claim; those are observed by the direct oracle only. *)
 From Coq Require Import ZArith List Bool.
 Require Import OV.Torch.Onnx OV.Torch.Spec OV.Torch.Aten OV.Torch.Lemmas
-               OV.Torch.ArithProofs OV.Torch.AxisProofs OV.Torch.ShapeProofs OV.Torch.Examples.
+               OV.Torch.ArithProofs OV.Torch.AxisProofs OV.Torch.ShapeProofs OV.Torch.Examples
+               OV.Torch.F32 OV.Torch.F32Proofs OV.Torch.StackProofs.
 Import ListNotations.
 Local Open Scope Z_scope.
 
@@ -88,6 +88,10 @@ Theorem C08_cat : forall ss dim out,
   torch_cat_shape ss dim = Some out -> aten_cat ss dim = Some out.
 Proof. exact cat_correct. Qed.
 Print Assumptions C08_cat.
+
+Theorem C08_stack : forall ss dim out, torch_stack_shape ss dim = Some out -> aten_stack ss dim = Some out.
+Proof. exact stack_correct. Qed.
+Print Assumptions C08_stack.
 
 (* ---------------------------------------------------------------- reductions: dim list / keepdim *)
 Theorem C08_sum_dim : forall s dims keepdim out,
@@ -231,6 +235,20 @@ Print Assumptions C08_floor_divide_signed.
 Theorem C08_floor_divide_unsigned : forall a b, 0 <= a -> 0 < b -> aten_floor_divide false a b = torch_div_floor a b.
 Proof. exact floor_divide_unsigned_correct. Qed.
 Print Assumptions C08_floor_divide_unsigned.
+
+(* div.Tensor_mode / div.Scalar_mode on integer tensors is computed through float32 (Cast, Div, Floor | trunc, CastLike);
+   with IEEE round-to-nearest-even (coq/Torch/F32.v) the detour is exact for operands of magnitude < 2^24 ... *)
+Theorem C08_div_mode_int : forall a b,
+  Z.abs a < two24 -> 0 < Z.abs b < two24 ->
+  aten_div_mode_int true a b = torch_div_floor a b /\ aten_div_mode_int false a b = torch_div_trunc a b.
+Proof. exact div_mode_int_correct. Qed.
+Print Assumptions C08_div_mode_int.
+
+(* ... and wrong beyond (genuine defect): 16777217 // 1 *)
+Theorem C08_div_mode_int_beyond_2p24_refuted : exists a b,
+  b <> 0 /\ aten_div_mode_int true a b <> torch_div_floor a b /\ aten_div_mode_int false a b <> torch_div_trunc a b.
+Proof. exact div_mode_int_refuted. Qed.
+Print Assumptions C08_div_mode_int_beyond_2p24_refuted.
 
 Theorem C08_remainder : forall a b, b <> 0 -> aten_remainder a b = torch_remainder a b.
 Proof. exact remainder_correct. Qed.
